@@ -50,10 +50,10 @@ TIED_PREFIXES = ("cctx_", "compress_", "load_dict_", "cdict_", "cstream", "unit_
                  "dstream_", "ddict_", "multi_ddict_")
 
 MAX_REPORT = 6
+RSEED = [1]
 
 # scenarios of the quick tier's debug-build sweep
-DBG_PREFIXES = ("unit_pool_3_4", "unit_mtctx_2", "unit_mtresize_a", "mt_oneshot", "mt_stream", "mt_ldm", "mt_resize", "mt2_threadpool",
-                "train_opt_")
+DBG_PREFIXES = ("unit_pool_3_4", "unit_mtctx_2", "unit_mtresize_a", "mt_oneshot", "mt_stream", "mt_ldm", "train_opt_cover_mt")
 
 
 # --------------------------------------------------------------------------
@@ -70,6 +70,7 @@ def build_harness(variant, extra_defs=()):
 def harness_env(timeout_s):
     env = dict(os.environ)
     env["C13_TIMEOUT"] = str(timeout_s)
+    env["C13_RSEED"] = str(RSEED[0])   # the rand_* scenarios draw their operation sequences from it
     env["ASAN_OPTIONS"] = "detect_leaks=0:abort_on_error=0:exitcode=99:allocator_may_return_null=1:detect_stack_use_after_return=0"
     env["UBSAN_OPTIONS"] = "halt_on_error=1:exitcode=98:print_stacktrace=1"
     return env
@@ -164,6 +165,9 @@ def finding_key(d, cls, variant="o1"):
         return "fastcover-segmentFreqs-null"
     site = failing_site(d)
     ff = ([t for t in d.get("ev", "").split() if t[0] in "Nnu"] or [""])[0]   # the first refused request, e.g. "n5:40"
+    if cls == "not-reported" and sc.startswith(("rand_", "mt")) and ff.startswith("N") and ff.endswith(":98304"):
+        # a sequence buffer (ZSTD_ldm_getMaxNbSeq(jobSize 512 KB) * sizeof(rawSeq)) requested by a job of a frame without LDM
+        return "mt-stale-seqpool-size-after-ldm-frame"
     if sc.startswith("legacy_"):
         # attempts inside one ZSTD_decompressStream call that switches the legacy version: context, inner context, inBuff, outBuff
         if sc == "legacy_versions" and d.get("k") == [3]:
@@ -568,7 +572,7 @@ class Batch:
         if key in self.reported or (not fk and len([k for k in self.reported if k[0] != "finding"]) >= MAX_REPORT):
             return
         self.reported.add(key)
-        replay = dict(kind="fault", scenario=d.get("s"), k=d.get("k", []), variant=self.variant,
+        replay = dict(kind="fault", scenario=d.get("s"), k=d.get("k", []), variant=self.variant, rseed=RSEED[0],
                       observed=dict(cls=cls, detail=txt, calls=d.get("ops", "")[-1500:], events=d.get("ev", "")[-3000:], stderr=d.get("stderr_tail", "")))
         self.ctx.violation(replay, what="C13 violated on the real code: scenario %s with allocation(s) %s failing: %s: %s"
                            % (d.get("s"), d.get("k", []), cls, txt[:300]) + (" [library built with -DDEBUGLEVEL=1]" if self.variant == "dbg" else ""),
@@ -601,8 +605,9 @@ def jobs_for(scens, rng, quick, pairs):
     for name, heavy in scens:
         jobs.append(["sweep", name])
     for name, heavy in scens:
-        if pairs:
-            jobs.append(["pairs", name, str(rng.randrange(1, 1 << 30)), str(pairs)])
+        seed = rng.randrange(1, 1 << 30)
+        if pairs and not (quick and heavy):   # quick tier: the heavy scenarios get every single k, no sampled multiple faults
+            jobs.append(["pairs", name, str(seed), str(pairs)])
     return jobs
 
 
@@ -615,6 +620,7 @@ def run(ctx):
                        "PRNG seeded by VERIF_SEED; evaluations = cases run; a case is non-trivial when an injected failure was actually hit; distinct = "
                        "distinct (scenario, API call in which the first failure hit, ordinal of the failing attempt inside that call, oracle verdict)")
     variant = "o1"
+    RSEED[0] = ctx.seed
     exe = build_harness(variant)
     mexe = core.build_extracted("c13model", "Extract/Extract_C13.v", "c13_driver.ml")
     if ctx.replay_file:
@@ -630,10 +636,18 @@ def run(ctx):
     ctx.notes["scenarios"] = len(scens)
     ctx.notes["exhaustive_over_k_for_every_scenario"] = True
     # 2. multithreaded scenarios again (the allocation order there depends on the thread schedule)
-    mt = [(n, h) for n, h in scens if n.startswith(("mt_", "mt2_", "thr_mt_", "thr_threadpool", "train_opt"))]
-    for rep in range(3 if ctx.quick else 30):
+    mt = [(n, h) for n, h in scens if n.startswith(("mt_", "mt2_", "thr_mt_", "thr_threadpool", "train_opt")) and not (ctx.quick and h)]
+    for rep in range(2 if ctx.quick else 15):
         b.process([["sweep", n] for n, h in mt], "mt%d" % rep, timeout_s=40 if ctx.quick else 90, wall=900, tie=False)
     core.log("C13: + MT repeats: %.1fs" % (time.time() - t0))
+    # 2a. more random histories: the rand_* scenarios again with other sequence seeds (every k each)
+    rnd = [(n, h) for n, h in scens if n.startswith("rand_")]
+    for i in range(2 if ctx.quick else 25):
+        RSEED[0] = ctx.seed * 1000 + 1 + i
+        b.process([["sweep", n] for n, h in rnd], "rand%d" % i, timeout_s=40 if ctx.quick else 90, wall=900, tie=False)
+    ctx.notes["random_histories"] = len(rnd) * (1 + (2 if ctx.quick else 25))
+    RSEED[0] = ctx.seed
+    core.log("C13: + random histories: %.1fs" % (time.time() - t0))
     # 2b. debug build (-DDEBUGLEVEL=1): every mutex / condition is one more libc allocation of the library (threading.c) and the
     # asserts are compiled in: the pool / multithreaded / threaded-trainer scenarios, every k (direct oracle only: the model
     # does not know those extra allocations)
@@ -686,6 +700,7 @@ def replay(ctx, mexe):
         ctx.proof_verdict(None)
         return
     variant = r.get("variant", "o1")
+    RSEED[0] = r.get("rseed", ctx.seed)
     exe = build_harness(variant)
     ks = ",".join(str(k) for k in r.get("k", [])) or "0"
     # "one" runs the case in-process: wrap it so that a crash is seen as a signal line
